@@ -18,7 +18,7 @@ for d in sorted(glob.glob(os.path.join(ROOT, "seeded", "*"))):
 hdr = """### 9.5 Seeded changes and which checks catch them
 
 %d changes to txtpp were written by sub-agents that saw only the text of one property and a scratch worktree
-(eleven rounds; the second asked for less obvious sites, the third and fourth (`"round"` in meta.json) for three mutually
+(twelve rounds; the second asked for less obvious sites, the third and fourth (`"round"` in meta.json) for three mutually
 different mechanisms per property with narrow failing inputs, schedule-dependent ones included; the fifth and sixth were
 confined to the ENTRY LAYER - src/main.rs, lib.rs, config.rs, progress.rs, error.rs, shell.rs: how an invocation becomes a
 run and how its result is reported). Each was confirmed in a scratch worktree (`tools/confirm_seeds.sh`,
@@ -81,7 +81,19 @@ worlds (same-prefix dependency directives, a non-ASCII multi-line block, stale o
 the 24 were caught at the first run; the other three needed a correction of the additions themselves (a corner scenario that
 ended in an error, so that only its verdict was compared; `-N verify` / `-N clean` left to a 1-in-15 draw - now the first
 cases of the CLI jobs). The corner scenarios also found a defect of the *model* (a lone carriage return at the very end of a
-file, 9.3).
+file, 9.3). Round 12 (the same theme for the other ten properties: C04-C07, C09, C11-C13, C15, C17; 30 changes) was run
+against the machinery as it then stood, with nothing added beforehand: 20 of the 30 were caught at the first run - seven of
+them by the corner scenarios, the large-output scenario and the new trace job - and ten were missed: verify accepting a
+tail appended to an output of exactly 0 / 8192 bytes (C04), a second source of the same output never scheduled (C05), verify
+comparing lossily decoded text (C06), clean deleting the file behind a symbolic link at the output path (C07), `-N`
+replacing such a link by a regular file (C09), symbolic links inside a scanned directory skipped (C11), `verify -n`
+ignored by the CLI (C13: three such cases were drawn, none with an output on which the option shows), continuation
+indentation capped at 64 bytes (C15), TXTPP_FILE of a dependency reached from an includer in a sub-directory and command
+output decoded in 8 KiB pieces (C17). Each got an explicit scenario (output sizes around the reader buffer with appended
+tails; twin sources as a corner project; U+FFFD in an output with its first byte changed; symbolic links at output paths
+and inside scanned directories; `verify -n` as the first case of every CLI shard over a source that ends in a text line;
+prefixes of 64-130 bytes in the add_line enumeration; the dependency-in-a-sub-directory project with a 40 KB command
+output) and all ten are caught now.
 
 | id | property | what the change does | caught by (quick tier) |
 |----|----------|----------------------|------------------------|
